@@ -65,8 +65,9 @@ class PgpWorld(EnvelopeWorld):
         self.real = None
         self.n_sim = len(self.keys)
         self.fs = SimFS(run)
-        self.patch.set(self.lib.common, "open", self.fs.open)
+        self.fs.install_open(self.patch, self.lib)
         self.fs.install_stat(self.patch)
+        self.fs.install_rename(self.patch)
         if header.get("real_gpg"):
             b = pgp.RealGpg.get(REPO)
             if b.ok:
